@@ -354,6 +354,16 @@ func init() {
 			{"\tDB 1,2,3\n\tJMP {{\n", "pass2-template-error", -1},
 			{"\tDB 1,2,3\n\tJMP {{.nolabel.x}}\n", "pass2-template-error", -1},
 			{"\tDB 1,2,3\n\tDB \"unterminated\n", "parse-error", -2},
+			// the error at different places of the file: first line, last line with and without a final line end, CR LF ends, behind a
+			// double-byte comment, in an object source
+			{"\tMOV AX,\n\tMOV AX,1\n", "parse-error first-line", -2},
+			{"\tMOV AX,1\n\tMOV BX,2\n\tMOV AX,", "parse-error last-line-no-newline", -2},
+			{"\tMOV AX,1\n\tDB \"abc", "parse-error open-string-no-newline", -2},
+			{"\tMOV AX,1\n\tMOV AX,,", "parse-error inside-last-line-no-newline", -2},
+			{"\tMOV AX,1\r\n\tMOV AX,\r\n\tHLT\r\n", "parse-error crlf", -2},
+			{"; \x93\xfa\x96\x7b\x8c\xea \x83\x5c\n\tHLT\nfoo", "parse-error after-sjis-comment-no-newline", -2},
+			{"[FORMAT \"WCOFF\"]\n[BITS 32", "parse-error coff-directive-no-newline", -2},
+			{"[FORMAT \"WCOFF\"]\n[BITS 32]\n\tGLOBAL _f\n_f:\n\tMOV EAX,\n", "parse-error coff", -2},
 			{string(bytes.Repeat([]byte("\tMOV AX,1\n"), 3000)) + "\tJMP {{\n", "late-failure-after-large-image", -1},
 		} {
 			add(&CLICase{What: "failing-run", Src: []byte(f.src), Prefill: junk, WantExit: f.want, Cell_: "failing " + f.kind + " prefilled"})
